@@ -507,6 +507,8 @@ def main(argv):
         update_pins(pid, cur_pins)
         changed_pins = []
     boost = 1
+    if os.environ.get('VERIF_IGNORE_PINS'):
+        changed_pins = []
     if changed_pins or broken:
         boost = 4
 
@@ -664,7 +666,9 @@ def main(argv):
         wall_s=round(time.time() - t0, 1),
         violations=len(replay_paths),
     )
-    json.dump(ev, open(os.path.join(VERIF, 'evidence', pid + '.json'), 'w'), indent=1, default=str)
+    evdir = os.path.join(VERIF, 'evidence') if os.path.abspath(REPO) == '/repo' else os.path.join(BUILD, 'evidence-scratch')
+    os.makedirs(evdir, exist_ok=True)   # runs against a scratch worktree (mutants) never touch the committed evidence
+    json.dump(ev, open(os.path.join(evdir, pid + '.json'), 'w'), indent=1, default=str)
     log('%s tier=%s seed=%d theorems=%d proof_ok=%s cases=%d nontrivial=%d disagreements=%d known=%d wall=%.1fs -> %s' % (
         pid, args.tier, seed, n_theorems, proof['ok'], len(raw_cases), len(nontrivial), len(disagreements),
         sum(len(v) for v in known_hit.values()), time.time() - t0, 'OK' if rc == 0 else 'VIOLATION'))
